@@ -27,6 +27,7 @@ const (
 	fNullDflt = "C06-null-default-of-list-variable-wrapped"
 	fSingle   = "C06-default-value-not-list-coerced"
 	fEnumList = "C06-panic-object-in-enum-list"
+	fCoerceOp = "C06-list-coercion-looks-at-first-operation"
 )
 
 // anyObjectInEnumList applies ir.ObjectInEnumList to every variable, including the list literal
@@ -165,6 +166,20 @@ func (c *Case) rawComparable(vars *ir.Value) bool {
 	return true
 }
 
+// listCoercionBehindAnotherOperation: the selected operation is not the first one of the
+// document and a provided value relies on list coercion (single value where a list is expected).
+func (c *Case) listCoercionBehindAnotherOperation(vars *ir.Value) bool {
+	if c.OperationName == "" || strings.HasPrefix(c.Query, "query "+c.OperationName) || vars == nil {
+		return false
+	}
+	for i := range c.Decls {
+		if ir.JSONNeedsListCoercion(&c.Schema, c.Decls[i].T(), vars.Get(c.Decls[i].Name), 0) {
+			return true
+		}
+	}
+	return false
+}
+
 // ---- message parsing -----------------------------------------------------------------------------
 
 var (
@@ -274,6 +289,9 @@ func checkCase(c Case, o *pbt.Rec) pbt.Verdict {
 		return pbt.OK
 	}
 	o.Label("varsform:" + c.VarsForm)
+	if c.OperationName != "" {
+		o.Labelf("multi-operation:%d", strings.Count(c.Query, "query D")+1)
+	}
 	o.Labelf("nvars:%d", len(c.Decls))
 	if c.Break == "" {
 		o.Label("break:none")
@@ -331,7 +349,7 @@ func checkCase(c Case, o *pbt.Rec) pbt.Verdict {
 	if err != nil {
 		return pbt.Bad("cannot build an engine for a generated schema (harness or schema-loading problem): %v\n%s", err, s.SDL(false))
 	}
-	res := rig.Execute(c.Query, rawVars, "")
+	res := rig.Execute(c.Query, rawVars, c.OperationName)
 	if res.Panic != "" {
 		if (strings.Contains(res.Panic, "inject_input_default_values.go") && c.anyObjectInEnumList(varsObj)) && pbt.IsKnown(fEnumList) {
 			return pbt.BadKnown(fEnumList, "default injection panics on an object inside a list of enums: %s\nquery: %s\nvariables: %s", firstLine(res.Panic), c.Query, c.Vars)
@@ -381,6 +399,9 @@ func checkCase(c Case, o *pbt.Rec) pbt.Verdict {
 		if (res.Err != nil && strings.Contains(res.Err.Error(), "Int cannot represent non 32-bit signed integer value: "+intMin) && strings.Contains(c.Query, intMin)) && pbt.IsKnown(fIntMin) {
 			return pbt.BadKnown(fIntMin, "operation validation rejects the Int literal %s%s", intMin, describe())
 		}
+		if c.listCoercionBehindAnotherOperation(varsObj) && pbt.IsKnown(fCoerceOp) {
+			return pbt.BadKnown(fCoerceOp, "single value for a list variable is not coerced because the selected operation is not the first one of the document%s", describe())
+		}
 		if (c.omittedListVarWithNullDefault(varsObj, "")) && pbt.IsKnown(fNullDflt) {
 			return pbt.BadKnown(fNullDflt, "omitted list variable with default null is given the value [null]%s", describe())
 		}
@@ -403,7 +424,7 @@ func checkCase(c Case, o *pbt.Rec) pbt.Verdict {
 	if c.VarsForm != "object" {
 		return pbt.OK // Execute only validates a variables object; nothing to call directly
 	}
-	if c.rawComparable(varsObj) {
+	if c.OperationName == "" && c.rawComparable(varsObj) { // a raw multi-operation document has no selected operation
 		o.Label("raw:comparable")
 		errRaw, pr := rig.ValidateRaw(c.Query, rawVars)
 		if pr != "" {
@@ -425,7 +446,7 @@ func checkCase(c Case, o *pbt.Rec) pbt.Verdict {
 	}
 
 	// -- VariablesValidator.Validate directly: decision and message clauses ----------------------------
-	adm := rig.Admit(c.Query, rawVars, "")
+	adm := rig.Admit(c.Query, rawVars, c.OperationName)
 	if adm.Panic != "" {
 		return pbt.Bad("normalization panicked: %s", adm.Panic)
 	}
@@ -469,6 +490,8 @@ func checkCase(c Case, o *pbt.Rec) pbt.Verdict {
 			return fEnumList, "default injection treated a list of enums as a list of input objects and rewrote it before validation"
 		}
 		switch {
+		case listMsg && c.listCoercionBehindAnotherOperation(varsObj) && pbt.IsKnown(fCoerceOp):
+			return fCoerceOp, "the rejection is about a single value for a list that was not coerced because the selected operation is not the first one of the document"
 		case (listMsg && c.defaultNeedsListCoercion(varsObj)) && pbt.IsKnown(fSingle):
 			return fSingle, "the rejection is about a default value that relies on list coercion and was injected as written"
 		case (c.declared(named) && c.omittedListVarWithNullDefault(varsObj, named)) && pbt.IsKnown(fNullDflt):
